@@ -1,4 +1,359 @@
-From Verif Require Import Base.Common Base.Dec Base.ListX Gen.Consts_default Gen.PostTab Model.C13 Proofs.C13 Model.C09.
+(* C09 — lemmas about Model/C09.v (the success path of ptt.DoPostArticle). *)
+From Verif Require Import Base.Common Base.Dec Base.ListX Base.Sweep Gen.Consts_default Gen.PostTab Model.C13 Proofs.C13 Model.C09.
 
+Ltac Zify.zify_post_hook ::= Z.div_mod_to_equations.
+
+(* the date functions assume UTC+8: the source must still say Asia/Taipei *)
 Lemma tz_is_taipei : TIME_LOCATION = [65; 115; 105; 97; 47; 84; 97; 105; 112; 101; 105].
 Proof. reflexivity. Qed.
+
+(* ------------------------------------------------------------------ lists *)
+Lemma firstn_app_exact {A} (a b : list A) n : length a = n -> firstn n (a ++ b) = a.
+Proof. intros <-. rewrite firstn_app, Nat.sub_diag, firstn_all. cbn. apply app_nil_r. Qed.
+
+Lemma skipn_app_exact {A} (a b : list A) n : length a = n -> skipn n (a ++ b) = b.
+Proof. intros <-. rewrite skipn_app, Nat.sub_diag, skipn_all. reflexivity. Qed.
+
+Lemma skipn_repeat {A} (x : A) k n : skipn k (repeat x n) = repeat x (n - k).
+Proof.
+  revert n. induction k as [|k IH]; intros n; [rewrite Nat.sub_0_r; reflexivity|].
+  destruct n as [|n]; [reflexivity|]. cbn. apply IH.
+Qed.
+
+Lemma copy_into_length dst src : length (copy_into dst src) = length dst.
+Proof. unfold copy_into. rewrite app_length, firstn_length, skipn_length. lia. Qed.
+
+(* copy into a zeroed array = pad / truncate *)
+Lemma copy_into_zeros n src : copy_into (repeat 0 n) src = fixlen n src.
+Proof. unfold copy_into, fixlen. rewrite repeat_length, skipn_repeat. reflexivity. Qed.
+
+(* a second copy of the same length overwrites the first *)
+Lemma copy_into_twice n a b : length a = length b -> copy_into (fixlen n a) b = fixlen n b.
+Proof.
+  intros E. unfold copy_into. rewrite fixlen_length. unfold fixlen. f_equal. rewrite <- E.
+  destruct (Nat.le_gt_cases (length a) n) as [H|H].
+  - rewrite firstn_all2 by lia. apply skipn_app_exact. reflexivity.
+  - replace (n - length a)%nat with O by lia. cbn [repeat]. rewrite app_nil_r.
+    apply skipn_all2. rewrite firstn_length. lia.
+Qed.
+
+Lemma cprefix_nonzero l r : Forall (fun c => c <> 0) l -> cprefix (l ++ 0 :: r) = l.
+Proof.
+  induction 1 as [|c l Hc _ IH]; cbn [app cprefix]; [reflexivity|].
+  destruct (Z.eqb_spec c 0); [contradiction|]. f_equal. exact IH.
+Qed.
+
+Lemma cprefix_nonzero_all l : Forall (fun c => c <> 0) l -> cprefix l = l.
+Proof.
+  induction 1 as [|c l Hc _ IH]; cbn [cprefix]; [reflexivity|].
+  destruct (Z.eqb_spec c 0); [contradiction|]. f_equal. exact IH.
+Qed.
+
+(* ------------------------------------------------------------------ byte-string equality and the directory map *)
+Lemma bytes_eqb_eq a : forall b, bytes_eqb a b = true <-> a = b.
+Proof.
+  induction a as [|x a IH]; intros [|y b]; cbn [bytes_eqb]; try (split; [discriminate|congruence]); [tauto|].
+  rewrite andb_true_iff, Z.eqb_eq, IH. split; [intros [-> ->]; reflexivity | intros E; inversion E; auto].
+Qed.
+
+Lemma bytes_eqb_refl a : bytes_eqb a a = true.
+Proof. apply bytes_eqb_eq. reflexivity. Qed.
+
+Lemma bytes_eqb_neq a b : a <> b -> bytes_eqb a b = false.
+Proof. intros H. destruct (bytes_eqb a b) eqn:E; [|reflexivity]. apply bytes_eqb_eq in E. contradiction. Qed.
+
+Lemma bytes_eqb_sym a b : bytes_eqb a b = bytes_eqb b a.
+Proof.
+  destruct (bytes_eqb a b) eqn:E.
+  - apply bytes_eqb_eq in E. subst. symmetry. apply bytes_eqb_refl.
+  - destruct (bytes_eqb b a) eqn:E'; [|reflexivity]. apply bytes_eqb_eq in E'. subst. rewrite bytes_eqb_refl in E. discriminate.
+Qed.
+
+Lemma lookup_set_same n c fs : lookup n (fs_set n c fs) = Some c.
+Proof.
+  induction fs as [|[k v] r IH]; cbn [fs_set lookup].
+  - rewrite bytes_eqb_refl. reflexivity.
+  - destruct (bytes_eqb k n) eqn:E; cbn [lookup]; rewrite E; [reflexivity|exact IH].
+Qed.
+
+Lemma lookup_set_other n m c fs : n <> m -> lookup m (fs_set n c fs) = lookup m fs.
+Proof.
+  intros H. induction fs as [|[k v] r IH]; cbn [fs_set lookup].
+  - rewrite bytes_eqb_neq by exact H. reflexivity.
+  - destruct (bytes_eqb k n) eqn:E; cbn [lookup].
+    + apply bytes_eqb_eq in E. subst k. rewrite bytes_eqb_neq by exact H. reflexivity.
+    + destruct (bytes_eqb k m); [reflexivity|exact IH].
+Qed.
+
+Lemma lookup_remove_same n fs : lookup n (fs_remove n fs) = None.
+Proof.
+  induction fs as [|[k v] r IH]; cbn [fs_remove lookup]; [reflexivity|].
+  destruct (bytes_eqb k n) eqn:E; [exact IH|]. cbn [lookup]. rewrite E. exact IH.
+Qed.
+
+Lemma lookup_remove_other n m fs : n <> m -> lookup m (fs_remove n fs) = lookup m fs.
+Proof.
+  intros H. induction fs as [|[k v] r IH]; cbn [fs_remove lookup]; [reflexivity|].
+  destruct (bytes_eqb k n) eqn:E.
+  - apply bytes_eqb_eq in E. subst k. rewrite bytes_eqb_neq by exact H. exact IH.
+  - cbn [lookup]. destruct (bytes_eqb k m); [reflexivity|exact IH].
+Qed.
+
+Lemma fexists_false fs n : fexists fs n = false <-> lookup n fs = None.
+Proof. unfold fexists. destruct (lookup n fs); split; congruence. Qed.
+
+(* [fs'] is [fs] plus one new file *)
+Definition files_plus (fs : files) (name c : list Z) (fs' : files) : Prop :=
+  forall n, lookup n fs' = if bytes_eqb name n then Some c else lookup n fs.
+
+(* ------------------------------------------------------------------ Stampfile *)
+Lemma stamp_fresh rnds : forall fs now t r rest,
+  stamp fs now rnds = Some (t, r, rest) -> fexists fs (stamp_name t r) = false.
+Proof.
+  induction rnds as [|x rnds IH]; intros fs now t r rest H; cbn [stamp] in H; [discriminate|].
+  destruct (fexists fs (stamp_name (wrap32 (now + 1)) x)) eqn:E.
+  - eapply IH. exact H.
+  - inversion H. subst. exact E.
+Qed.
+
+Lemma wrap32_small x : 0 <= x < 2147483648 -> wrap32 x = x.
+Proof.
+  intros H. unfold wrap32. rewrite Z.mod_small by lia. destruct (Z.ltb_spec x 2147483648); lia.
+Qed.
+
+Lemma stamp_range rnds : forall fs now t r rest,
+  0 <= now -> now + Z.of_nat (length rnds) < 2147483648 ->
+  stamp fs now rnds = Some (t, r, rest) ->
+  now < t /\ t + Z.of_nat (length rest) <= now + Z.of_nat (length rnds) /\ In r rnds /\ (forall x, In x rest -> In x rnds).
+Proof.
+  induction rnds as [|x rnds IH]; intros fs now t r rest H0 H1 H; cbn [stamp] in H; [discriminate|].
+  cbn [length] in H1. rewrite Nat2Z.inj_succ in H1.
+  rewrite wrap32_small in H by lia.
+  destruct (fexists fs (stamp_name (now + 1) x)) eqn:E.
+  - destruct (IH fs (now + 1) t r rest ltac:(lia) ltac:(lia) H) as (A & B & C & D).
+    cbn [length]. rewrite Nat2Z.inj_succ. repeat split; [lia|lia|right; exact C|intros y Hy; right; apply D; exact Hy].
+  - inversion H. subst. cbn [length]. rewrite Nat2Z.inj_succ.
+    repeat split; [lia|lia|left; reflexivity|intros y Hy; right; exact Hy].
+Qed.
+
+(* ------------------------------------------------------------------ names: the stamp name is C13's mk_name *)
+Lemma print_dec_10 t : 1000000000 <= t < 2147483648 -> print_dec t = map dec_char (digitsB 10 10 t).
+Proof.
+  intros H. unfold print_dec. destruct (Z.ltb_spec t 0); [lia|].
+  rewrite (min_digits_exact 10 9) by (cbn; lia). reflexivity.
+Qed.
+
+Definition name_body (t r : Z) : list Z :=
+  77 :: 46 :: map dec_char (digitsB 10 10 t) ++ [46; 65; 46] ++ map hexU_char (digitsB 16 3 r).
+
+Lemma stamp_name_body t r : 1000000000 <= t < 2147483648 -> stamp_name t r = name_body t r.
+Proof. intros H. unfold stamp_name, name_body. rewrite print_dec_10 by exact H. reflexivity. Qed.
+
+Lemma name_body_length t r : length (name_body t r) = 18%nat.
+Proof. unfold name_body. cbn [length]. rewrite !app_length, !map_length, !digitsB_length. reflexivity. Qed.
+
+Lemma mk_name_body t r : mk_name 77 t r = name_body t r ++ repeat 0 10.
+Proof.
+  unfold mk_name. fold (name_body t r). unfold fixlen. rewrite name_body_length.
+  rewrite firstn_all2 by (rewrite name_body_length; lia). reflexivity.
+Qed.
+
+Lemma dec_char_nz d : 0 <= d -> dec_char d <> 0.
+Proof. unfold dec_char. lia. Qed.
+Lemma hexU_char_nz d : 0 <= d -> hexU_char d <> 0.
+Proof. unfold hexU_char. destruct (d <? 10); lia. Qed.
+
+Lemma name_body_nonzero t r : Forall (fun c => c <> 0) (name_body t r).
+Proof.
+  unfold name_body. constructor; [lia|]. constructor; [lia|].
+  apply Forall_app. split.
+  - apply Forall_forall. intros c Hc. apply in_map_iff in Hc. destruct Hc as (d & <- & Hd).
+    apply dec_char_nz. pose proof (digitsB_range 10 10 ltac:(lia) t) as R. rewrite Forall_forall in R. apply R in Hd. lia.
+  - apply Forall_app. split.
+    + constructor; [lia|]. constructor; [lia|]. constructor; [lia|]. constructor.
+    + apply Forall_forall. intros c Hc. apply in_map_iff in Hc. destruct Hc as (d & <- & Hd).
+      apply hexU_char_nz. pose proof (digitsB_range 16 3 ltac:(lia) r) as R. rewrite Forall_forall in R. apply R in Hd. lia.
+Qed.
+
+Lemma cprefix_mk_name t r : cprefix (mk_name 77 t r) = name_body t r.
+Proof. rewrite mk_name_body. change (repeat 0 10) with (0 :: repeat 0 9). apply cprefix_nonzero. apply name_body_nonzero. Qed.
+
+Lemma fn_first_stamp t r : 1000000000 <= t < 2147483648 ->
+  copy_into (repeat 0 (Z.to_nat ptttype.FNLEN)) (stamp_name t r) = mk_name 77 t r.
+Proof.
+  intros H. rewrite copy_into_zeros, stamp_name_body by exact H. reflexivity.
+Qed.
+
+Lemma fn_second_stamp t1 r1 t2 r2 : 1000000000 <= t1 < 2147483648 -> 1000000000 <= t2 < 2147483648 ->
+  copy_into (copy_into (repeat 0 (Z.to_nat ptttype.FNLEN)) (stamp_name t1 r1)) (stamp_name t2 r2) = mk_name 77 t2 r2.
+Proof.
+  intros H1 H2. rewrite copy_into_zeros, !stamp_name_body by assumption.
+  rewrite copy_into_twice by (rewrite !name_body_length; reflexivity). reflexivity.
+Qed.
+
+(* the article id of a stamped name decodes back to it (C13) *)
+Lemma cprefix_aidc a : 0 <= a < 2 ^ 48 -> cprefix (aidu_to_aidc a) = aidu_to_aidc a.
+Proof.
+  intros Ha. unfold aidu_to_aidc. cbn [to_aidc_loop].
+  repeat match goal with |- context [enc_digit ?x] =>
+    let H := fresh in
+    assert (H : enc_digit x <> 0) by (apply (enc_dec x); lia);
+    generalize dependent (enc_digit x); intros end.
+  cbn [cprefix].
+  repeat match goal with H : ?z <> 0 |- context [?z =? 0] => destruct (Z.eqb_spec z 0); [contradiction|] end.
+  reflexivity.
+Qed.
+
+Lemma aid_roundtrip t r : 1000000000 <= t < 2147483648 -> 0 <= r < 4096 ->
+  articleid_to_fn (fn_to_articleid (mk_name 77 t r)) = Ok (mk_name 77 t r).
+Proof.
+  intros Ht Hr. unfold articleid_to_fn, fn_to_articleid.
+  pose proof (name_aidu_range 77 t r ltac:(change (2 ^ 31) with 2147483648; lia) Hr) as R.
+  rewrite cprefix_aidc by exact R.
+  assert (L : forall s, length s = 8%nat -> fixlen 8 s = s).
+  { intros s Hs. unfold fixlen. rewrite Hs, firstn_all2 by lia. change (repeat 0 (8 - 8)) with (@nil Z). apply app_nil_r. }
+  rewrite L by apply aidc_length.
+  rewrite num_text_num by exact R. cbn [res_map]. f_equal.
+  apply name_roundtrip; [left; reflexivity | change (2 ^ 31) with 2147483648; lia | exact Hr].
+Qed.
+
+(* ------------------------------------------------------------------ the chain of file operations of one post *)
+Lemma files_chain fs N1 N2 text url :
+  lookup N1 fs = None ->
+  lookup N2 (fs_write0 N1 text (fs_set N1 [] fs)) = None ->
+  files_plus fs N2 (text ++ url)
+    (fs_rename N1 N2 (fs_append N1 url (fs_set N2 [] (fs_write0 N1 text (fs_set N1 [] fs)))))
+  /\ N1 <> N2 /\ lookup N2 fs = None.
+Proof.
+  intros H1 H2.
+  assert (W : fs_write0 N1 text (fs_set N1 [] fs) = fs_set N1 text (fs_set N1 [] fs)).
+  { unfold fs_write0. rewrite lookup_set_same, skipn_nil, app_nil_r. reflexivity. }
+  rewrite W in *.
+  assert (A2 : lookup N1 (fs_set N1 text (fs_set N1 [] fs)) = Some text) by apply lookup_set_same.
+  assert (NE : N1 <> N2). { intros E. subst N2. rewrite A2 in H2. discriminate. }
+  assert (NE' : N2 <> N1) by congruence.
+  set (fs2 := fs_set N1 text (fs_set N1 [] fs)) in *.
+  assert (A3 : lookup N1 (fs_set N2 [] fs2) = Some text) by (rewrite lookup_set_other by exact NE'; exact A2).
+  assert (F4 : fs_append N1 url (fs_set N2 [] fs2) = fs_set N1 (text ++ url) (fs_set N2 [] fs2)).
+  { unfold fs_append. rewrite A3. reflexivity. }
+  rewrite F4. unfold fs_rename. rewrite lookup_set_same.
+  split; [|split; [exact NE|]].
+  - intros n. destruct (bytes_eqb N2 n) eqn:E.
+    + apply bytes_eqb_eq in E. subst n. apply lookup_set_same.
+    + assert (Hn : N2 <> n) by (intros ->; rewrite bytes_eqb_refl in E; discriminate).
+      rewrite lookup_set_other by exact Hn.
+      destruct (bytes_eqb N1 n) eqn:E1.
+      * apply bytes_eqb_eq in E1. subst n. rewrite lookup_remove_same. symmetry. exact H1.
+      * assert (Hn1 : N1 <> n) by (intros ->; rewrite bytes_eqb_refl in E1; discriminate).
+        rewrite lookup_remove_other by exact Hn1.
+        rewrite lookup_set_other by exact Hn1. rewrite lookup_set_other by exact Hn.
+        unfold fs2. rewrite !lookup_set_other by exact Hn1. reflexivity.
+  - rewrite <- H2. unfold fs2. rewrite !lookup_set_other by exact NE. reflexivity.
+Qed.
+
+(* ------------------------------------------------------------------ one post: inversion of the success path *)
+Definition the_title (role : bool) (q : req) : list Z := tn_safe_strip role (full_title (q_class q) (q_title q)).
+Definition the_text (role : bool) (u : user) (b : board) (q : req) : list Z :=
+  article_text u b (the_title role q) (q_nowH q) (q_lines q) (q_ip q).
+
+Record post_facts (role : bool) (u : user) (b : board) (q : req) (u' : user) (b' : board) (o : outcome) (t1 r1 t2 r2 : Z) : Prop := {
+  pf_stamp1 : exists rest, stamp (b_files b) (q_nowA q) (q_rnds q) = Some (t1, r1, rest) /\
+              exists fs2 rest2, stamp fs2 (q_nowB q) rest = Some (t2, r2, rest2);
+  pf_fresh1 : fexists (b_files b) (stamp_name t1 r1) = false;
+  pf_fresh2 : fexists (b_files b) (stamp_name t2 r2) = false;
+  pf_files : files_plus (b_files b) (stamp_name t2 r2) (the_text role u b q ++ url_line b (o_fn o)) (b_files b');
+  pf_fn : o_fn o = copy_into (copy_into (repeat 0 (Z.to_nat ptttype.FNLEN)) (stamp_name t1 r1)) (stamp_name t2 r2);
+  pf_entry : o_entry o = mk_entry (o_fn o) (q_mtime q) (u_id u)
+                           (copy_into (copy_into (repeat 0 6) (cdatemd t1)) (cdatemd t2)) (the_title role q);
+  pf_dir : b_dir b' = append_rec (b_dir b) (o_entry o);
+  pf_idx : o_idx o = lenZ (b_dir b) / lenZ (o_entry o) + 1;
+  pf_aid : o_aid o = fn_to_articleid (o_fn o);
+  pf_total : b_total b' = wrap32 (lenZ (b_dir b') / ptttype.FILE_HEADER_RAW_SZ);
+  pf_user : u' = mkUser (u_id u) (u_nick u) (u_priv u) (wrapu32 (u_numposts u + 1));
+  pf_bname : b_name b' = b_name b;
+  pf_mods : b_mods b' = b_mods b
+}.
+
+Lemma post_on_inv role u b q u' b' o :
+  post_on role u b q = Ok (u', b', o) -> exists t1 r1 t2 r2, post_facts role u b q u' b' o t1 r1 t2 r2.
+Proof.
+  intros H. unfold post_on in H.
+  destruct (stamp (b_files b) (q_nowA q) (q_rnds q)) as [[[t1 r1] rest]|] eqn:S1; [|discriminate].
+  cbv zeta in H.
+  match type of H with context [stamp ?fs (q_nowB q) rest] => set (fs2 := fs) in *; destruct (stamp fs2 (q_nowB q) rest) as [[[t2 r2] rest2]|] eqn:S2; [|discriminate] end.
+  inversion H; subst u' b' o; clear H.
+  pose proof (stamp_fresh _ _ _ _ _ _ S1) as F1. pose proof (stamp_fresh _ _ _ _ _ _ S2) as F2.
+  apply fexists_false in F1. apply fexists_false in F2.
+  destruct (files_chain (b_files b) (stamp_name t1 r1) (stamp_name t2 r2)
+              (article_text u b (tn_safe_strip role (full_title (q_class q) (q_title q))) (q_nowH q) (q_lines q) (q_ip q))
+              (url_line b (copy_into (copy_into (repeat 0 (Z.to_nat ptttype.FNLEN)) (stamp_name t1 r1)) (stamp_name t2 r2)))
+              F1 F2) as (FP & NE & F2').
+  exists t1, r1, t2, r2. constructor; cbn [o_fn o_entry o_idx o_aid b_dir b_files b_total b_name b_mods]; try reflexivity.
+  - exists rest. split; [exact S1|]. exists fs2, rest2. exact S2.
+  - apply fexists_false. exact F1.
+  - apply fexists_false. exact F2'.
+  - exact FP.
+Qed.
+
+(* ------------------------------------------------------------------ the index entry *)
+Lemma le32_length x : length (le32 x) = 4%nat.
+Proof. reflexivity. Qed.
+
+Lemma mk_entry_length fn mt own date title : length fn = 28%nat -> length date = 6%nat ->
+  length (mk_entry fn mt own date title) = 128%nat.
+Proof.
+  intros Hf Hd. unfold mk_entry. rewrite !app_length, !copy_into_length, !repeat_length, Hf, Hd, le32_length. reflexivity.
+Qed.
+
+Lemma entry_length role u b q u' b' o : post_on role u b q = Ok (u', b', o) -> length (o_entry o) = 128%nat.
+Proof.
+  intros H. destruct (post_on_inv _ _ _ _ _ _ _ H) as (t1 & r1 & t2 & r2 & F).
+  rewrite (pf_entry _ _ _ _ _ _ _ _ _ _ _ F). apply mk_entry_length.
+  - rewrite (pf_fn _ _ _ _ _ _ _ _ _ _ _ F), !copy_into_length, repeat_length. reflexivity.
+  - rewrite !copy_into_length, repeat_length. reflexivity.
+Qed.
+
+Lemma index_grows role u b q u' b' o : post_on role u b q = Ok (u', b', o) ->
+  length (o_entry o) = 128%nat /\
+  b_dir b' = firstn (Z.to_nat (lenZ (b_dir b) / 128 * 128)) (b_dir b) ++ o_entry o /\
+  o_idx o = lenZ (b_dir b) / 128 + 1 /\
+  (lenZ (b_dir b) mod 128 = 0 -> b_dir b' = b_dir b ++ o_entry o /\ lenZ (b_dir b') = lenZ (b_dir b) + 128).
+Proof.
+  intros H. pose proof (entry_length _ _ _ _ _ _ _ H) as L.
+  destruct (post_on_inv _ _ _ _ _ _ _ H) as (t1 & r1 & t2 & r2 & F).
+  pose proof (pf_dir _ _ _ _ _ _ _ _ _ _ _ F) as D. pose proof (pf_idx _ _ _ _ _ _ _ _ _ _ _ F) as I.
+  unfold append_rec in D. unfold lenZ in D at 2 3. unfold lenZ in I at 2. rewrite L in D, I. change (Z.of_nat 128) with 128 in D, I.
+  split; [exact L|]. split; [exact D|]. split; [exact I|].
+  intros M. assert (E : lenZ (b_dir b) / 128 * 128 = lenZ (b_dir b)) by lia.
+  rewrite E in D. unfold lenZ in D. rewrite Nat2Z.id, firstn_all in D.
+  split; [exact D|]. rewrite D. unfold lenZ. rewrite app_length, L. lia.
+Qed.
+
+(* slicing the 128 bytes *)
+Lemma entry_fields fn mt own date title : length fn = 28%nat -> length date = 6%nat ->
+  let e := mk_entry fn mt own date title in
+  firstn 28 e = fn /\
+  firstn 4 (skipn 28 e) = le32 mt /\
+  firstn 14 (skipn 34 e) = fixlen 14 own /\
+  firstn 6 (skipn 48 e) = date /\
+  firstn 65 (skipn 54 e) = fixlen 65 title /\
+  skipn 119 e = repeat 0 9.
+Proof.
+  intros Hf Hd e. subst e. unfold mk_entry.
+  change (Z.to_nat (ptttype.IDLEN + 2)) with 14%nat. change (Z.to_nat (ptttype.TTLEN + 1)) with 65%nat.
+  rewrite !copy_into_zeros.
+  set (O := fixlen 14 own). set (T := fixlen 65 title).
+  assert (LO : length O = 14%nat) by apply fixlen_length.
+  assert (LT : length T = 65%nat) by apply fixlen_length.
+  split; [apply firstn_app_exact; exact Hf|].
+  split. { rewrite skipn_app_exact by exact Hf. apply firstn_app_exact. reflexivity. }
+  split. { rewrite (app_assoc fn), (app_assoc (fn ++ le32 mt)).
+           rewrite skipn_app_exact by (rewrite !app_length, Hf; reflexivity). apply firstn_app_exact. exact LO. }
+  split. { rewrite (app_assoc fn), (app_assoc (fn ++ le32 mt)), (app_assoc ((fn ++ le32 mt) ++ [0; 0])).
+           rewrite skipn_app_exact by (rewrite !app_length, Hf, LO; reflexivity). apply firstn_app_exact. exact Hd. }
+  split. { rewrite (app_assoc fn), (app_assoc (fn ++ le32 mt)), (app_assoc ((fn ++ le32 mt) ++ [0; 0])), (app_assoc (((fn ++ le32 mt) ++ [0; 0]) ++ O)).
+           rewrite skipn_app_exact by (rewrite !app_length, Hf, LO, Hd; reflexivity). apply firstn_app_exact. exact LT. }
+  rewrite (app_assoc fn), (app_assoc (fn ++ le32 mt)), (app_assoc ((fn ++ le32 mt) ++ [0; 0])), (app_assoc (((fn ++ le32 mt) ++ [0; 0]) ++ O)),
+          (app_assoc ((((fn ++ le32 mt) ++ [0; 0]) ++ O) ++ date)).
+  rewrite skipn_app_exact by (rewrite !app_length, Hf, LO, Hd, LT; reflexivity). reflexivity.
+Qed.
